@@ -72,6 +72,7 @@ type Cell struct {
 	V        any
 	Dead     bool // defining scope has exited
 	Captured bool
+	ByThrow  bool // ... and it was left by a throw (frame or block unwound, not returned from)
 }
 
 type Closure struct {
